@@ -494,7 +494,6 @@ func c12ReverseStr(r *R) {
 	}
 }
 
-
 // c12Stateful: "the part its predicate or key dictates" -- the verdict the callback gives when it is asked
 // about an element. A callback may be stateful (a counter: round-robin buckets, "take the first k", a
 // seen-set); the splitters ask it exactly once per element, in order (DropRightWhile: from the right).
